@@ -85,6 +85,13 @@ pub(crate) fn policy_cost_update(key: u64, prev: i64, cost: i64) {
     obs::emit(Obs::CostUpdate { key, prev, cost });
 }
 
+pub(crate) fn policy_cleared() {
+    if !obs::enabled() {
+        return;
+    }
+    obs::emit(Obs::PolicyCleared);
+}
+
 pub(crate) fn policy_applied(keys: &[u64]) {
     if !obs::enabled() {
         return;
